@@ -167,6 +167,9 @@ def fill(index, rep, fn):
     from .symx import _Return
     rule_g, rule_o = "C18.GREEDY", "C18.ORDER"
     loops = [s_ for s_ in fn.body if isinstance(s_, ast.For)]
+    if len(loops) > 1:
+        # the fill is the loop that takes minima (a merged-in validation helper may bring loops of its own)
+        loops = [l_ for l_ in loops if any(isinstance(c_, ast.Call) and dotted(c_.func) in ("min", "np.minimum") for c_ in ast.walk(l_))]
     if len(loops) != 1:
         raise AnalysisError("calculate_human_consumption_for_min_needs: expected exactly one month loop")
     loop = loops[0]
